@@ -31,7 +31,7 @@ import (
 
 func init() { extraTables = append(extraTables, extractProm) }
 
-func src(fs *token.FileSet, n ast.Node) string {
+func promSrc(fs *token.FileSet, n ast.Node) string {
 	if n == nil {
 		return ""
 	}
@@ -126,7 +126,7 @@ func analyzePipe(fs *token.FileSet, fd *ast.FuncDecl) promPipeRow {
 			if call, ok := s.Rhs[0].(*ast.CallExpr); ok {
 				fn := selName(call.Fun)
 				if strings.HasSuffix(fn, "GetFunctionDescription") {
-					row.DescCall = src(fs, call)
+					row.DescCall = promSrc(fs, call)
 					row.SkipCaller, row.SkipArgs = -1, -1
 					if len(call.Args) == 2 {
 						if a, ok := call.Args[0].(*ast.BasicLit); ok {
@@ -137,35 +137,35 @@ func analyzePipe(fs *token.FileSet, fd *ast.FuncDecl) promPipeRow {
 						}
 					}
 				} else if lhs0 == "collector" {
-					row.Collector = src(fs, call)
+					row.Collector = promSrc(fs, call)
 				}
 				continue
 			}
 			if k := argVar(lhs0); k >= 0 {
 				// argK := pipeDescription.Arguments[K]
 				want := fmt.Sprintf("pipeDescription.Arguments[%d]", k)
-				if src(fs, s.Rhs[0]) == want {
+				if promSrc(fs, s.Rhs[0]) == want {
 					row.ArgDecls = append(row.ArgDecls, k)
 				} else {
 					row.ArgDecls = append(row.ArgDecls, -1)
 				}
 			}
 		case *ast.IfStmt:
-			if src(fs, s.Cond) == "err != nil" && len(s.Body.List) == 1 {
-				row.ErrReturn = src(fs, s.Body.List[0])
+			if promSrc(fs, s.Cond) == "err != nil" && len(s.Body.List) == 1 {
+				row.ErrReturn = promSrc(fs, s.Body.List[0])
 			}
 		case *ast.ReturnStmt:
 			if len(s.Results) != 2 {
 				continue
 			}
-			row.ReturnsColl = src(fs, s.Results[1]) == "collector"
+			row.ReturnsColl = promSrc(fs, s.Results[1]) == "collector"
 			call, ok := s.Results[0].(*ast.CallExpr)
 			if !ok || len(call.Args) != 4 {
-				row.Call = "?" + src(fs, s.Results[0])
+				row.Call = "?" + promSrc(fs, s.Results[0])
 				continue
 			}
 			row.Call = selName(call.Fun)
-			row.CallHead = src(fs, call.Args[0]) + "," + src(fs, call.Args[1])
+			row.CallHead = promSrc(fs, call.Args[0]) + "," + promSrc(fs, call.Args[1])
 			row.PlainAritiesOk, row.InstrAritiesOk = true, true
 			// ro.PipeOpK(a1 … aK) applies a1 … aK in order, so nested ro.PipeOpK calls (used above
 			// 12 operators, ro.PipeOp stops at 25) are flattened; every K must equal its argument count
@@ -200,7 +200,7 @@ func analyzePipe(fs *token.FileSet, fd *ast.FuncDecl) promPipeRow {
 					}
 					if c, ok := a.(*ast.CallExpr); ok && selName(c.Fun) == "observeOperatorProcessingTime" && len(c.Args) == 4 {
 						j := -1
-						n0, n1 := src(fs, c.Args[1]), src(fs, c.Args[2])
+						n0, n1 := promSrc(fs, c.Args[1]), promSrc(fs, c.Args[2])
 						if strings.HasSuffix(n0, ".Name") && strings.HasSuffix(n1, ".Pos") && strings.TrimSuffix(n0, ".Name") == strings.TrimSuffix(n1, ".Pos") {
 							j = argVar(strings.TrimSuffix(n0, ".Name"))
 						}
@@ -208,12 +208,12 @@ func analyzePipe(fs *token.FileSet, fd *ast.FuncDecl) promPipeRow {
 						if l, ok := c.Args[3].(*ast.BasicLit); ok {
 							idx, _ = strconv.Atoi(l.Value)
 						}
-						if j >= 0 && idx >= 0 && src(fs, c.Args[0]) == "collector.OperatorProcessingTimeSeconds" {
+						if j >= 0 && idx >= 0 && promSrc(fs, c.Args[0]) == "collector.OperatorProcessingTimeSeconds" {
 							row.Instr = append(row.Instr, promSlot{Kind: "obs", K: j, Index: idx})
 							continue
 						}
 					}
-					row.Instr = append(row.Instr, promSlot{Kind: "other", Text: src(fs, a)})
+					row.Instr = append(row.Instr, promSlot{Kind: "other", Text: promSrc(fs, a)})
 				}
 			}
 		}
@@ -252,7 +252,7 @@ func argsAre(fs *token.FileSet, c *ast.CallExpr, names ...string) bool {
 		return false
 	}
 	for i, n := range names {
-		if src(fs, c.Args[i]) != n {
+		if promSrc(fs, c.Args[i]) != n {
 			return false
 		}
 	}
@@ -268,7 +268,7 @@ func argsAre(fs *token.FileSet, c *ast.CallExpr, names ...string) bool {
 //   .other "<src>"            anything else (rejected by the Lean predicates)
 func promEvents(fs *token.FileSet, stmts []ast.Stmt, guard string, value string) []string {
 	var out []string
-	other := func(n ast.Node) { out = append(out, ".other "+leanStr(src(fs, n))) }
+	other := func(n ast.Node) { out = append(out, ".other "+leanStr(promSrc(fs, n))) }
 	for _, st := range stmts {
 		switch s := st.(type) {
 		case *ast.ExprStmt:
@@ -281,7 +281,7 @@ func promEvents(fs *token.FileSet, stmts []ast.Stmt, guard string, value string)
 				if guard == "" && argsAre(fs, c, names...) {
 					out = append(out, ctor)
 				} else {
-					out = append(out, ".fwdModified "+leanStr(guard+src(fs, c)))
+					out = append(out, ".fwdModified "+leanStr(guard+promSrc(fs, c)))
 				}
 			}
 			switch {
@@ -294,15 +294,15 @@ func promEvents(fs *token.FileSet, stmts []ast.Stmt, guard string, value string)
 			default:
 				sel, ok := c.Fun.(*ast.SelectorExpr)
 				if ok && sel.Sel.Name == "Inc" && len(c.Args) == 0 && guard == "" {
-					out = append(out, ".inc "+leanStr(src(fs, sel.X)))
+					out = append(out, ".inc "+leanStr(promSrc(fs, sel.X)))
 				} else if ok && sel.Sel.Name == "Observe" && len(c.Args) == 1 {
-					out = append(out, ".observe "+leanStr(guard)+" "+leanStr(src(fs, sel.X)))
+					out = append(out, ".observe "+leanStr(guard)+" "+leanStr(promSrc(fs, sel.X)))
 				} else {
 					other(st)
 				}
 			}
 		case *ast.AssignStmt:
-			text := src(fs, st)
+			text := promSrc(fs, st)
 			switch {
 			case guard != "":
 				other(st)
@@ -311,13 +311,13 @@ func promEvents(fs *token.FileSet, stmts []ast.Stmt, guard string, value string)
 			case text == "start, ok := ctx.Value(checkpointCtx{}).(int64)":
 				out = append(out, ".readStamp")
 			case strings.HasSuffix(text, ":= xtime.NowNanoMonotonic()") && len(s.Lhs) == 1:
-				out = append(out, ".clock "+leanStr(src(fs, s.Lhs[0])))
+				out = append(out, ".clock "+leanStr(promSrc(fs, s.Lhs[0])))
 			default:
 				other(st)
 			}
 		case *ast.IfStmt:
 			if s.Init == nil && s.Else == nil && guard == "" {
-				out = append(out, promEvents(fs, s.Body.List, src(fs, s.Cond), value)...)
+				out = append(out, promEvents(fs, s.Body.List, promSrc(fs, s.Cond), value)...)
 			} else {
 				other(st)
 			}
@@ -335,7 +335,7 @@ func promCallback(fs *token.FileSet, e ast.Expr, method string, value string) []
 	if fl, ok := e.(*ast.FuncLit); ok {
 		return promEvents(fs, fl.Body.List, "", value)
 	}
-	return []string{".other " + leanStr(src(fs, e))}
+	return []string{".other " + leanStr(promSrc(fs, e))}
 }
 
 func analyzeWrapper(fs *token.FileSet, fd *ast.FuncDecl) (promWrapperRow, bool) {
@@ -354,7 +354,7 @@ func analyzeWrapper(fs *token.FileSet, fd *ast.FuncDecl) (promWrapperRow, bool) 
 	}
 	body := op.Body.List
 	if len(body) > 0 {
-		if is, ok := body[0].(*ast.IfStmt); ok && src(fs, is.Cond) == "!isPrometheusEnabled()" && len(is.Body.List) == 1 && src(fs, is.Body.List[0]) == "return source" {
+		if is, ok := body[0].(*ast.IfStmt); ok && promSrc(fs, is.Cond) == "!isPrometheusEnabled()" && len(is.Body.List) == 1 && promSrc(fs, is.Body.List[0]) == "return source" {
 			row.LicenceGuard = true
 			body = body[1:]
 		}
@@ -370,7 +370,7 @@ func analyzeWrapper(fs *token.FileSet, fd *ast.FuncDecl) (promWrapperRow, bool) 
 	}
 	ctor, ok := r2.Results[0].(*ast.CallExpr)
 	if !ok || len(ctor.Args) != 1 {
-		row.Ctor = "?" + src(fs, r2.Results[0])
+		row.Ctor = "?" + promSrc(fs, r2.Results[0])
 		return row, true
 	}
 	row.Ctor = selName(ctor.Fun)
@@ -384,11 +384,11 @@ func analyzeWrapper(fs *token.FileSet, fd *ast.FuncDecl) (promWrapperRow, bool) 
 	var pre []ast.Stmt
 	for _, st := range sub.Body.List {
 		if as, ok := st.(*ast.AssignStmt); ok && len(as.Rhs) == 1 && len(as.Lhs) == 1 {
-			if c, ok := as.Rhs[0].(*ast.CallExpr); ok && src(fs, c.Fun) == "source.SubscribeWithContext" && len(c.Args) == 2 {
+			if c, ok := as.Rhs[0].(*ast.CallExpr); ok && promSrc(fs, c.Fun) == "source.SubscribeWithContext" && len(c.Args) == 2 {
 				row.SubscribeN++
-				subVar = src(fs, as.Lhs[0])
-				row.SubscribeCtx = src(fs, c.Args[0])
-				if src(fs, c.Args[1]) == "destination" {
+				subVar = promSrc(fs, as.Lhs[0])
+				row.SubscribeCtx = promSrc(fs, c.Args[0])
+				if promSrc(fs, c.Args[1]) == "destination" {
 					row.PassThrough = true
 					row.OnNext, row.OnError, row.OnComplete = []string{".direct"}, []string{".direct"}, []string{".direct"}
 				} else if oc, ok := c.Args[1].(*ast.CallExpr); ok && selName(oc.Fun) == "ro.NewObserverWithContext" && len(oc.Args) == 3 {
@@ -396,13 +396,13 @@ func analyzeWrapper(fs *token.FileSet, fd *ast.FuncDecl) (promWrapperRow, bool) 
 					row.OnError = promCallback(fs, oc.Args[1], "ErrorWithContext", "err")
 					row.OnComplete = promCallback(fs, oc.Args[2], "CompleteWithContext", "")
 				} else {
-					row.OnNext = []string{".other " + leanStr(src(fs, c.Args[1]))}
+					row.OnNext = []string{".other " + leanStr(promSrc(fs, c.Args[1]))}
 				}
 				continue
 			}
 		}
 		if rs, ok := st.(*ast.ReturnStmt); ok && len(rs.Results) == 1 {
-			row.Returns = src(fs, rs.Results[0])
+			row.Returns = promSrc(fs, rs.Results[0])
 			if subVar != "" && row.Returns == subVar+".Unsubscribe" {
 				row.Returns = "upstream.Unsubscribe"
 			}
@@ -411,7 +411,7 @@ func analyzeWrapper(fs *token.FileSet, fd *ast.FuncDecl) (promWrapperRow, bool) 
 		if row.SubscribeN == 0 {
 			pre = append(pre, st)
 		} else {
-			row.PreSubscribe = append(row.PreSubscribe, ".other "+leanStr("after-subscribe: "+src(fs, st)))
+			row.PreSubscribe = append(row.PreSubscribe, ".other "+leanStr("after-subscribe: "+promSrc(fs, st)))
 		}
 	}
 	row.PreSubscribe = append(promEvents(fs, pre, "", "value"), row.PreSubscribe...)
@@ -487,7 +487,7 @@ func extractProm(repo, out string) {
 							if ac, ok := a.(*ast.CallExpr); ok {
 								var ms []string
 								for _, m := range ac.Args {
-									t := src(fs, m)
+									t := promSrc(fs, m)
 									t = strings.TrimSuffix(t, ".With(prometheus.Labels{})")
 									if strings.HasPrefix(t, "collector.") && !strings.ContainsAny(t[len("collector."):], ".( ") {
 										ms = append(ms, t[len("collector."):])
@@ -497,7 +497,7 @@ func extractProm(repo, out string) {
 								}
 								wrap = append(wrap, selName(ac.Fun)+"("+strings.Join(ms, ",")+")")
 							} else {
-								wrap = append(wrap, src(fs, a))
+								wrap = append(wrap, promSrc(fs, a))
 							}
 						}
 					}
@@ -539,12 +539,12 @@ func extractProm(repo, out string) {
 			case *ast.GenDecl:
 				for _, sp := range x.Specs {
 					if vs, ok := sp.(*ast.ValueSpec); ok && len(vs.Names) == 1 && vs.Names[0].Name == "bypassLicenseCheck" && len(vs.Values) == 1 {
-						lic["bypassDefault"] = src(fs, vs.Values[0])
+						lic["bypassDefault"] = promSrc(fs, vs.Values[0])
 					}
 				}
 			case *ast.FuncDecl:
 				if x.Name.Name == "isPrometheusEnabled" && x.Body != nil && len(x.Body.List) == 1 {
-					lic["enabled"] = src(fs, x.Body.List[0])
+					lic["enabled"] = promSrc(fs, x.Body.List[0])
 				}
 				if x.Name.Name == "checkLicenseAndPipe" && x.Body != nil && len(x.Body.List) == 1 {
 					if rs, ok := x.Body.List[0].(*ast.ReturnStmt); ok && len(rs.Results) == 1 {
@@ -554,17 +554,17 @@ func extractProm(repo, out string) {
 								for _, st := range fl.Body.List {
 									switch s := st.(type) {
 									case *ast.IfStmt:
-										lic["cond"] = src(fs, s.Cond)
+										lic["cond"] = promSrc(fs, s.Cond)
 										if len(s.Body.List) == 1 {
-											lic["then"] = src(fs, s.Body.List[0])
+											lic["then"] = promSrc(fs, s.Body.List[0])
 										}
 										if eb, ok := s.Else.(*ast.BlockStmt); ok && len(eb.List) == 1 {
-											lic["else"] = src(fs, eb.List[0])
+											lic["else"] = promSrc(fs, eb.List[0])
 										}
 									case *ast.AssignStmt:
-										lic["subscribe"] = src(fs, s)
+										lic["subscribe"] = promSrc(fs, s)
 									case *ast.ReturnStmt:
-										lic["returns"] = src(fs, s)
+										lic["returns"] = promSrc(fs, s)
 									}
 								}
 							}
